@@ -120,6 +120,17 @@ func gen(g *core.G) {
 		g.Emit("sound " + pick(u2).String() + " " + b.String() + " " + w.String())
 	}
 
+	// sound, the positional rules exhaustively: every pair of Tuple / Array types whose declared types are shorter than,
+	// equal to or longer than the maximal sizes involved, against the arrays that tell them apart
+	pos := lat.Positional(g.Thorough())
+	for _, a := range pos {
+		for _, b := range pos {
+			for _, v := range lat.PositionalVals() {
+				g.Emit("sound " + a.String() + " " + b.String() + " " + v.String())
+			}
+		}
+	}
+
 	// ---- (2) structured random cases: B related to A, V generated from B --------------------------------------
 	for i := 0; i < 9000*g.Scale; i++ {
 		lg.Alias = i%5 == 0
